@@ -1,4 +1,5 @@
 import ComposeVerif.Lemmas.Pipeline
+import ComposeVerif.Props.C04Stage
 /-!
 # C04 — files and `---` documents through the composed pipeline
 
@@ -10,6 +11,24 @@ correspondence streams `pipeline.load` and `pipeline.loadY`):
   document of a file to the next except the model built so far;
 * a document without `!reset` / `!override` tags read from YAML text goes through the pipeline exactly like its
   decoded tree handed over as `ConfigFile.Config` (`untagged_document_is_its_tree`, `untagged_documents_are_trees`).
+
+Round 6:
+
+* **the load is a left fold** (`processNodes_foldl`, `processFiles_foldl`, `processDocs_foldl`, `loadY_is_left_fold`,
+  `processNodes_snoc`, `processDocs_snoc`): loading `f1..fn` *is* "apply each later one onto the result so far",
+  starting from the empty model; a failure of one step is the failure of the load.  The bracketing matters — the
+  override rules are not associative (`Neg/C04Whole.lean`, `merge_not_associative`).
+* **single entry per key, through the composed pipeline** (`mergeStages_deduplicated`, `processDoc_deduplicated`,
+  `processNode_deduplicated`, `processNodes_deduplicated`, `processFiles_deduplicated`, `accumulated_model_deduplicated`):
+  whatever interpolation, extends, schema validation, canonicalisation and omit-empty did, the model accumulated
+  after every document is a fixed point of `EnforceUnicity` — now for the *modelled* stages, not a parameter `post`.
+* **`!reset` / `!override` over the composed pipeline**: a tagged document is its stripped tree applied to the model
+  from which the recorded paths were deleted (`tagged_document_is_stripped_tree_after_apply`); `Apply` is idempotent
+  (`applyNull_idem`) and depends only on the *set* of recorded paths (`applyNull_congr`, `applyNull_perm`,
+  `applyNull_dup`): neither the order in which the tags appear in the document nor a path recorded twice matters;
+  with interpolation and extends off the step refines C04's `Reset.docStep` (`processNode_refines_docStep`), so the
+  top-level `!reset` / `!override` laws hold for the model that enters schema validation
+  (`processNode_reset_removes_partial`, `processNode_override_replaces_partial`).
 -/
 namespace CV.C04.Whole
 open CV CV.Pipeline
@@ -79,5 +98,268 @@ theorem loadY_untagged_eq_load (c : Cfg) (docs : List Val.KVs) :
 example : (Reset.readDoc (.map .none [("services", .map .none [("a", .map .none [("image", .scalar .reset (.str "x"))])])])).2
     = [["services", "a", "image"]] := by decide
 example : untagged (.map .none [("services", .map .none [("a", .map .none [("image", .scalar .none (.str "x"))])])]) = true := by decide
+
+/-! ## Round 6 — the load is a left fold -/
+
+/-- a failed load stays failed: the remaining files are not looked at -/
+theorem foldl_bind_err {α : Type} (g : Val → α → Out Val) (e : String) : ∀ l : List α,
+    l.foldl (fun (acc : Out Val) x => acc.bind fun d => g d x) (.err e) = .err e
+  | [] => rfl
+  | _ :: r => by simpa [List.foldl, Out.bind] using foldl_bind_err g e r
+
+theorem foldl_bind_panic {α : Type} (g : Val → α → Out Val) (s : String) : ∀ l : List α,
+    l.foldl (fun (acc : Out Val) x => acc.bind fun d => g d x) (.panic s) = .panic s
+  | [] => rfl
+  | _ :: r => by simpa [List.foldl, Out.bind] using foldl_bind_panic g s r
+
+/-- **documents: "apply each later one onto the result so far"** -/
+theorem processNodes_foldl (c : Cfg) : ∀ (ns : List Reset.YNode) (dict : Val),
+    processNodes c dict ns = ns.foldl (fun (acc : Out Val) n => acc.bind fun d => processNode c d n) (.ok dict)
+  | [], _ => rfl
+  | n :: r, dict => by
+    simp only [processNodes, List.foldl, Out.bind]
+    cases processNode c dict n with
+    | ok d => exact processNodes_foldl c r d
+    | err e => exact (foldl_bind_err (processNode c) e r).symm
+    | panic s => exact (foldl_bind_panic (processNode c) s r).symm
+
+/-- **files: the same, a file being the fold of its documents** -/
+theorem processFiles_foldl (c : Cfg) : ∀ (files : List (List Reset.YNode)) (dict : Val),
+    processFiles c dict files = files.foldl (fun (acc : Out Val) f => acc.bind fun d => processNodes c d f) (.ok dict)
+  | [], _ => rfl
+  | f :: r, dict => by
+    simp only [processFiles, List.foldl, Out.bind]
+    cases processNodes c dict f with
+    | ok d => exact processFiles_foldl c r d
+    | err e => exact (foldl_bind_err (processNodes c) e r).symm
+    | panic s => exact (foldl_bind_panic (processNodes c) s r).symm
+
+/-- … and for files handed over as parsed trees -/
+theorem processDocs_foldl (c : Cfg) : ∀ (docs : List Val.KVs) (dict : Val),
+    processDocs c dict docs = docs.foldl (fun (acc : Out Val) d => acc.bind fun m => processDoc c m d) (.ok dict)
+  | [], _ => rfl
+  | d :: r, dict => by
+    simp only [processDocs, List.foldl, Out.bind]
+    cases processDoc c dict d with
+    | ok m => exact processDocs_foldl c r m
+    | err e => exact (foldl_bind_err (processDoc c) e r).symm
+    | panic s => exact (foldl_bind_panic (processDoc c) s r).symm
+
+/-- **the whole load of `f1..fn`**: the left fold of the per-file step from the empty model, then the stages that run
+once (`finishModel`, `finishLoad`) -/
+theorem loadY_is_left_fold (c : Cfg) (files : List (List Reset.YNode)) (h : files ≠ []) :
+    loadY c files =
+      ((files.foldl (fun (acc : Out Val) f => acc.bind fun d => processNodes c d f) (.ok (.map []))).bind (finishModel c)).bind
+        (finishLoad c) := by
+  have e : files.isEmpty = false := by cases files <;> simp_all
+  simp only [loadY, e, loadYamlModelY, processFiles_foldl]
+  rfl
+
+/-- one more document at the end = the load so far, then that document applied onto it -/
+theorem processNodes_snoc (c : Cfg) (ns : List Reset.YNode) (n : Reset.YNode) (dict : Val) :
+    processNodes c dict (ns ++ [n]) = (processNodes c dict ns).bind fun d => processNode c d n := by
+  rw [processNodes_append]
+  cases processNodes c dict ns with
+  | ok d =>
+    simp only [processNodes, Out.bind]
+    cases processNode c d n <;> rfl
+  | err e => rfl
+  | panic s => rfl
+
+theorem processDocs_snoc (c : Cfg) (docs : List Val.KVs) (d : Val.KVs) (dict : Val) :
+    processDocs c dict (docs ++ [d]) = (processDocs c dict docs).bind fun m => processDoc c m d := by
+  rw [processDocs_foldl, List.foldl_append, ← processDocs_foldl]
+  rfl
+
+/-! ## Round 6 — a single entry per key after every document, for the modelled stages -/
+
+theorem pbind_ok {α β : Type} {x : Out α} {f : α → Out β} {b : β} (h : x.bind f = .ok b) :
+    ∃ a, x = .ok a ∧ f a = .ok b := by
+  cases x with
+  | ok a => exact ⟨a, rfl, h⟩
+  | err e => simp [Out.bind] at h
+  | panic s => simp [Out.bind] at h
+
+theorem ofMerge_ok {α : Type} {st : String} {r : Merge.Out α} {a : α} (h : ofMerge st r = .ok a) : r = .ok a := by
+  cases r <;> simp_all [ofMerge]
+
+/-- `processRawYaml` ends with `EnforceUnicity`: whatever it is given, what it returns is a fixed point -/
+theorem mergeStages_deduplicated (c : Cfg) (dict : Val) (cfg : Val.KVs) (r : Val)
+    (h : mergeStages c dict cfg = .ok r) : Unicity.enforceTop r = .ok r := by
+  unfold mergeStages at h
+  obtain ⟨_, _, h⟩ := pbind_ok h
+  obtain ⟨_, _, h⟩ := pbind_ok h
+  obtain ⟨_, _, h⟩ := pbind_ok h
+  obtain ⟨_, _, h⟩ := pbind_ok h
+  obtain ⟨d, _, h⟩ := pbind_ok h
+  exact CV.C04.enforceTop_idem d r (ofMerge_ok h)
+
+theorem processDoc_deduplicated (c : Cfg) (dict : Val) (cfg : Val.KVs) (r : Val)
+    (h : processDoc c dict cfg = .ok r) : Unicity.enforceTop r = .ok r := by
+  unfold processDoc at h
+  obtain ⟨_, _, h⟩ := pbind_ok h
+  obtain ⟨_, _, h⟩ := pbind_ok h
+  exact mergeStages_deduplicated c _ _ r h
+
+theorem processNode_deduplicated (c : Cfg) (dict : Val) (n : Reset.YNode) (r : Val)
+    (h : processNode c dict n = .ok r) : Unicity.enforceTop r = .ok r := by
+  unfold processNode at h
+  generalize Reset.readDoc n = rd at h
+  obtain ⟨v, paths⟩ := rd
+  cases v with
+  | map cfg =>
+    simp only at h
+    obtain ⟨_, _, h⟩ := pbind_ok h
+    obtain ⟨_, _, h⟩ := pbind_ok h
+    exact mergeStages_deduplicated c _ _ r h
+  | _ => simp at h
+
+theorem processNodes_deduplicated (c : Cfg) : ∀ (ns : List Reset.YNode) (dict r : Val),
+    Unicity.enforceTop dict = .ok dict → processNodes c dict ns = .ok r → Unicity.enforceTop r = .ok r
+  | [], dict, r, hd, h => by simp only [processNodes, Out.ok.injEq] at h; subst h; exact hd
+  | n :: ns, dict, r, _, h => by
+    simp only [processNodes] at h
+    cases hn : processNode c dict n with
+    | ok d => rw [hn] at h; exact processNodes_deduplicated c ns d r (processNode_deduplicated c dict n d hn) h
+    | err e => simp [hn] at h
+    | panic s => simp [hn] at h
+
+theorem processFiles_deduplicated (c : Cfg) : ∀ (files : List (List Reset.YNode)) (dict r : Val),
+    Unicity.enforceTop dict = .ok dict → processFiles c dict files = .ok r → Unicity.enforceTop r = .ok r
+  | [], dict, r, hd, h => by simp only [processFiles, Out.ok.injEq] at h; subst h; exact hd
+  | f :: fs, dict, r, hd, h => by
+    simp only [processFiles] at h
+    cases hn : processNodes c dict f with
+    | ok d => rw [hn] at h; exact processFiles_deduplicated c fs d r (processNodes_deduplicated c f dict d hd hn) h
+    | err e => simp [hn] at h
+    | panic s => simp [hn] at h
+
+/-- **the model `loadYamlModel` has accumulated when the loop over the files ends holds a single entry per key in
+every keyed list** — any number of files and documents, any option flags, with the modelled interpolation, extends,
+schema, canonicalisation and omit-empty stages in between -/
+theorem accumulated_model_deduplicated (c : Cfg) (files : List (List Reset.YNode)) (r : Val)
+    (h : processFiles c (.map []) files = .ok r) : Unicity.enforceTop r = .ok r :=
+  processFiles_deduplicated c files _ r (by rfl) h
+
+/-! ## Round 6 — `!reset` / `!override` over the composed pipeline -/
+
+/-- **a tagged document** goes through the pipeline as its stripped tree (the `!reset` nodes dropped, the `!override`
+nodes kept) applied to the model so far *from which the recorded paths were deleted first* -/
+theorem tagged_document_is_stripped_tree_after_apply (c : Cfg) (dict : Val) (n : Reset.YNode) (cfg : Val.KVs)
+    (paths : List TPath) (h : Reset.readDoc n = (.map cfg, paths)) :
+    processNode c dict n = processDoc c (Reset.applyNull paths dict TPath.root) cfg := by
+  simp only [processNode, h, processDoc]
+
+open CV.Reset in
+mutual
+/-- `Apply` looks at the recorded paths only through "does some recorded path match this position" -/
+theorem applyNull_congr (ps qs : List TPath) (h : ∀ q, matchesAny ps q = matchesAny qs q) :
+    ∀ (v : Val) (p : TPath), applyNull ps v p = applyNull qs v p
+  | .null, _ => by simp [applyNull]
+  | .bool _, _ => by simp [applyNull]
+  | .int _, _ => by simp [applyNull]
+  | .float _, _ => by simp [applyNull]
+  | .str _, _ => by simp [applyNull]
+  | .seq xs, p => by simp [applyNull, applySeq_congr ps qs h xs p 0]
+  | .map kvs, p => by simp [applyNull, applyKVs_congr ps qs h kvs p]
+theorem applyKVs_congr (ps qs : List TPath) (h : ∀ q, matchesAny ps q = matchesAny qs q) :
+    ∀ (kvs : Val.KVs) (p : TPath), applyKVs ps kvs p = applyKVs qs kvs p
+  | [], _ => by simp [applyKVs]
+  | (k, e) :: r, p => by simp [applyKVs, h, applyNull_congr ps qs h e _, applyKVs_congr ps qs h r p]
+theorem applySeq_congr (ps qs : List TPath) (h : ∀ q, matchesAny ps q = matchesAny qs q) :
+    ∀ (xs : List Val) (p : TPath) (i : Nat), applySeq ps xs p i = applySeq qs xs p i
+  | [], _, _ => by simp [applySeq]
+  | e :: r, p, i => by simp [applySeq, h, applyNull_congr ps qs h e _, applySeq_congr ps qs h r p (i + 1)]
+end
+
+/-- the order in which the tags were met in the document is irrelevant -/
+theorem applyNull_perm (ps qs : List TPath) (h : ps.Perm qs) (v : Val) (p : TPath) :
+    Reset.applyNull ps v p = Reset.applyNull qs v p :=
+  applyNull_congr ps qs (fun q => by simp only [Reset.matchesAny]; exact h.any_eq) v p
+
+/-- a path recorded twice (an anchor used at two places resolving to one path, a processor that saw the document
+twice) deletes nothing more -/
+theorem applyNull_dup (ps : List TPath) (v : Val) (p : TPath) :
+    Reset.applyNull (ps ++ ps) v p = Reset.applyNull ps v p :=
+  applyNull_congr _ _ (fun q => by simp [Reset.matchesAny, List.any_append]) v p
+
+open CV.Reset in
+mutual
+/-- `Apply` is idempotent: what it leaves matches no recorded path any more -/
+theorem applyNull_idem (ps : List TPath) : ∀ (v : Val) (p : TPath), applyNull ps (applyNull ps v p) p = applyNull ps v p
+  | .null, _ => by simp [applyNull]
+  | .bool _, _ => by simp [applyNull]
+  | .int _, _ => by simp [applyNull]
+  | .float _, _ => by simp [applyNull]
+  | .str _, _ => by simp [applyNull]
+  | .seq xs, p => by simp [applyNull, applySeq_idem ps xs p 0]
+  | .map kvs, p => by simp [applyNull, applyKVs_idem ps kvs p]
+theorem applyKVs_idem (ps : List TPath) : ∀ (kvs : Val.KVs) (p : TPath), applyKVs ps (applyKVs ps kvs p) p = applyKVs ps kvs p
+  | [], _ => by simp [applyKVs]
+  | (k, e) :: r, p => by
+    by_cases hm : matchesAny ps (Merge.next p k) = true
+    · simp [applyKVs, hm, applyKVs_idem ps r p]
+    · simp [applyKVs, hm, applyNull_idem ps e _, applyKVs_idem ps r p]
+theorem applySeq_idem (ps : List TPath) : ∀ (xs : List Val) (p : TPath) (i : Nat),
+    applySeq ps (applySeq ps xs p i) p i = applySeq ps xs p i
+  | [], _, _ => by simp [applySeq]
+  | e :: r, p, i => by
+    by_cases hm : matchesAny ps (Merge.next p ("[" ++ i.repr ++ "]")) = true
+    · simp [applySeq, hm, applySeq_idem ps r p (i + 1)]
+    · simp [applySeq, hm, applyNull_idem ps e _, applySeq_idem ps r p (i + 1)]
+end
+
+/-- the stages of `processRawYaml` after the first `EnforceUnicity` -/
+def restStages (c : Cfg) (u : Val) : Out Val :=
+  (schemaStage c.opts u).bind fun d =>
+  (ofShort (Short.canonical c.opts.skipInterpolation d)).bind fun d =>
+  (omitEmpty c.omitPats d).bind fun d =>
+  ofMerge "unicity2" (Unicity.enforceTop d)
+
+/-- **the composed step refines C04's `docStep`**: with interpolation and extends switched off, a document succeeds
+through `processNode` exactly when C04's reset → merge → unicity step succeeds and the remaining stages accept its
+result -/
+theorem processNode_refines_docStep (c : Cfg) (hi : c.opts.skipInterpolation = true) (he : c.opts.skipExtends = true)
+    (dict : Val) (es : List (String × Reset.YNode)) (r : Val) :
+    processNode c dict (.map .none es) = .ok r ↔
+      ∃ u, Reset.docStep .ok dict (.map .none es) = .ok u ∧ restStages c u = .ok r := by
+  simp only [processNode, Reset.readDoc, Reset.resolve, Reset.decode, interpStage, hi, extendsStage, he, if_true,
+    Out.bind, mergeStages, Reset.docStep, restStages]
+  cases Merge.merge (Reset.applyNull (Reset.resolveMap es TPath.root).2 dict TPath.root)
+      (.map (Reset.decodeKV (Reset.resolveMap es TPath.root).1)) with
+  | ok m =>
+    simp only [ofMerge, Out.bind, Merge.Out.bind]
+    cases Unicity.enforceTop m with
+    | ok u => simp [ofMerge, Out.bind, Merge.Out.bind]
+    | err e => simp [ofMerge, Out.bind, Merge.Out.bind]
+    | panic s => simp [ofMerge, Out.bind, Merge.Out.bind]
+  | err e => simp [ofMerge, Out.bind, Merge.Out.bind]
+  | panic s => simp [ofMerge, Out.bind, Merge.Out.bind]
+
+/-- `!reset` on a top-level entry, through the composed step: the model that enters schema validation and
+canonicalisation does not have the key, whatever the earlier files held there.  (`_partial`: the full statement —
+the key is absent from the *returned* model `r` — additionally needs "canonicalisation and omit-empty add no top-level
+key", which is not proved here; the split oracle observes it on the real loader.) -/
+theorem processNode_reset_removes_partial (c : Cfg) (hi : c.opts.skipInterpolation = true) (he : c.opts.skipExtends = true)
+    (a : Val.KVs) (es : List (String × Reset.YNode)) (k : String) (x : Reset.YNode) (r : Val)
+    (ht : x.tag = .reset) (hnd : (es.map Prod.fst).Nodup) (hmem : (k, x) ∈ es)
+    (h : processNode c (.map a) (.map .none es) = .ok r) :
+    ∃ u, Reset.docStep .ok (.map a) (.map .none es) = .ok (.map u) ∧ Val.lookup k u = none ∧ restStages c (.map u) = .ok r := by
+  obtain ⟨u, hu, hr⟩ := (processNode_refines_docStep c hi he _ es r).1 h
+  obtain ⟨m, r', _, _, heq⟩ := CV.C04.docStep_root a es u hu
+  subst heq
+  exact ⟨r', hu, CV.C04.docStep_reset_removes a es k x r' ht hnd hmem hu, hr⟩
+
+/-- `!override` on a top-level entry, through the composed step: the key is in the model that enters schema
+validation, and it got there from the later document alone (`override_replaces`) -/
+theorem processNode_override_replaces_partial (c : Cfg) (hi : c.opts.skipInterpolation = true) (he : c.opts.skipExtends = true)
+    (a : Val.KVs) (es : List (String × Reset.YNode)) (k : String) (x : Reset.YNode) (r : Val)
+    (ht : x.tag = .override) (hnd : (es.map Prod.fst).Nodup) (hmem : (k, x) ∈ es)
+    (h : processNode c (.map a) (.map .none es) = .ok r) :
+    ∃ u, Reset.docStep .ok (.map a) (.map .none es) = .ok (.map u) ∧ k ∈ Val.keys u ∧ restStages c (.map u) = .ok r := by
+  obtain ⟨u, hu, hr⟩ := (processNode_refines_docStep c hi he _ es r).1 h
+  obtain ⟨m, r', _, _, heq⟩ := CV.C04.docStep_root a es u hu
+  subst heq
+  exact ⟨r', hu, CV.C04.docStep_override_replaces a es k x r' ht hnd hmem hu, hr⟩
 
 end CV.C04.Whole
